@@ -724,6 +724,18 @@ def no_lazily_filled_attributes(ctx, rule, classes):
                     keynode = par.left
                 if isinstance(keynode, ast.Constant) and isinstance(keynode.value, str) and keynode.value not in cached_props:
                     bad.append((fi, x.lineno, f"{ast.unparse(x.value)}.{keynode.value}", 'instance dictionary addressed by name'))
+            # `vars(obj)` is the same dictionary as `obj.__dict__`
+            if isinstance(x, ast.Call) and isinstance(x.func, ast.Name) and x.func.id == 'vars' and len(x.args) == 1:
+                par = parents.get(x)
+                keynode = None
+                if isinstance(par, ast.Attribute) and isinstance(parents.get(par), ast.Call) and parents[par].args:
+                    keynode = parents[par].args[0]
+                elif isinstance(par, ast.Subscript):
+                    keynode = par.slice
+                elif isinstance(par, ast.Compare) and isinstance(par.ops[0], (ast.In, ast.NotIn)):
+                    keynode = par.left
+                if isinstance(keynode, ast.Constant) and isinstance(keynode.value, str) and keynode.value not in cached_props:
+                    bad.append((fi, x.lineno, f"{ast.unparse(x.args[0])}.{keynode.value}", 'instance dictionary addressed by name through vars()'))
             # a dictionary held in an attribute and filled on demand: `if k not in x._d: x._d[k] = ..`
             if isinstance(x, ast.If) and isinstance(x.test, ast.Compare) and len(x.test.ops) == 1 and \
                     isinstance(x.test.ops[0], ast.NotIn) and isinstance(x.test.comparators[0], ast.Attribute) and \
